@@ -99,15 +99,14 @@ pub fn lex_line<'a>(lexer: &dyn NonStreamingLexer<'a, LT>, epp: &dyn Fn(TIdx<u32
     o
 }
 
-/// `err …` lines: one per error, in the order reported; the repair sequences of one error as a sorted
-/// set (the property fixes the set, not the rank order)
+/// `err …` lines: one per error, in the order reported, each with its repair sequences in the order reported
 pub fn err_lines(errs: &[LexParseError<u32, LT>]) -> Vec<String> {
     let mut v = Vec::new();
     for e in errs {
         match e {
             LexParseError::LexError(e) => v.push(format!("err lex {}:{}", e.span().start(), e.span().len())),
             LexParseError::ParseError(pe) => {
-                let mut seqs: Vec<String> = pe
+                let seqs: Vec<String> = pe
                     .repairs()
                     .iter()
                     .map(|seq| {
@@ -122,8 +121,9 @@ pub fn err_lines(errs: &[LexParseError<u32, LT>]) -> Vec<String> {
                         parts.join(",")
                     })
                     .collect();
-                seqs.sort();
-                seqs.dedup();
+                // in the order reported: since the order of equally ranked sequences was made reproducible
+                // (deterministic hasher in simplify_repairs) it is a function of grammar and input, so the
+                // generated and the run-time parser must agree on it — and on which sequence is applied
                 v.push(format!("err parse at {} set [{}]", fmt_lexeme(pe.lexeme()), seqs.join(" | ")));
             }
         }
